@@ -38,56 +38,70 @@ def run(chk: Check) -> None:
 
 
 def scope_pairing(chk: Check) -> None:
+    """Every function that installs a new process stack restores the previous one on EVERY way out, the exceptional
+    ones included (context-manager form: try/finally around the yield; token form: reset in a finally)."""
     prog = chk.prog
-    ps = prog.func('processes.Process._process_scope')
-    # OWN: PROCESS_STACK is written only in _process_scope
+    pushers = {}
     n = 0
     for f in prog.all_funcs():
         for c in calls_in_func(f):
             if isinstance(c.func, ast.Attribute) and norm(c.func.value) == 'PROCESS_STACK' and c.func.attr in ('set', 'reset'):
                 n += 1
-                chk.ob('OWN-process-stack', f, f is ps, 'the process stack is replaced only inside _process_scope', node=c, kind='stack-writer')
+                pushers.setdefault(id(f.node), (f, []))[1].append(c)
             # in-place mutation of the list obtained from the context variable
             if isinstance(c.func, ast.Attribute) and c.func.attr in ('append', 'pop', 'insert', 'remove', 'clear', 'extend') and 'PROCESS_STACK.get()' == norm(c.func.value):
                 chk.ob('OWN-process-stack', f, False, 'the list held by the context variable is mutated in place: other tasks sharing it (the default [] is one object) see the change',
                        node=c, kind='in-place-mutation')
     chk.floor('OWN-process-stack', n, 1)
-    chk.ob('OWN-process-stack', ps, ps.has_decorator('contextmanager'), '_process_scope is a context manager', kind='contextmanager')
-    cfg = cfg_of(ps)
-    # push: copy, append self, set -- before the yield
-    yields = [nd for nd in cfg.nodes if nd.expr() is not None and any(isinstance(x, (ast.Yield,)) for x in walk_shallow(nd.expr()))]
-    chk.need(len(yields) == 1, '_process_scope must yield exactly once')
-    y = yields[0]
-    sets = [nd for nd in cfg.nodes if any(isinstance(c, ast.Call) and norm(c.func) == 'PROCESS_STACK.set' for c in (walk_shallow(nd.expr()) if nd.expr() is not None else []))]
-    before = [s for s in sets if y.id in cfg.reachable([s], edge_ok=no_exc)]
-    after = [s for s in sets if s.id in cfg.reachable([y])]
-    chk.ob('PAIR-scope', ps, len(before) == 1 and cfg.must_pass(cfg.entry, [y], lambda m: m in before, edge_ok=no_exc), 'the scope is entered (stack replaced) before the body runs', kind='push-before-yield')
+    proc = prog.cls('processes.Process')
+    for f, cs in pushers.values():
+        owner = f.owner_class
+        ok_owner = owner is not None and owner.is_subclass_of(proc) and f.name in ('_process_scope', '_run_task')
+        chk.ob('OWN-process-stack', f, ok_owner, 'the process stack is replaced only by the scope machinery of Process (_process_scope / _run_task)', node=cs[0], kind='stack-writer')
+        cfg = cfg_of(f)
+        nodes = [(m, c) for c in cs for m in cfg.nodes_containing(c)]
+        # pushes: stack writes not preceded by another stack write on some path from the entry
+        write_nodes = [m for m, _ in nodes]
+        pushes = [m for m in write_nodes if not cfg.must_pass(cfg.entry, [m], lambda x: x in write_nodes and x is not m)]
+        restores = [m for m in write_nodes if m not in pushes]
+        chk.ob('PAIR-scope', f, bool(pushes) and bool(restores), f'{f.short} both installs a stack with this process and restores the previous one', kind='push-and-restore')
+        for p_ in pushes:
+            # (an exception raised BY the push itself means nothing was pushed)
+            # and an exception raised by the restoring cleanup block itself (its sanity assert, the copy) is not an
+            # exception "raised inside the scope": only the statements of a finally body that holds the restore are exempt
+            cleanup = set()
+            for t in ast.walk(f.node):
+                if isinstance(t, ast.Try) and any(c is x for s_ in t.finalbody for x in ast.walk(s_) for _, c in nodes):
+                    cleanup |= {id(x) for s_ in t.finalbody for x in ast.walk(s_)}
 
-    def copy_based(setnode, op: str) -> bool:
-        call = [c for c in walk_shallow(setnode.expr()) if isinstance(c, ast.Call) and norm(c.func) == 'PROCESS_STACK.set'][0]
-        if not call.args or not isinstance(call.args[0], ast.Name):
-            return False
-        var = call.args[0].id
-        # the variable is a fresh copy of the current stack, modified by op
-        preds = cfg.reachable([cfg.entry], include_src=True)
-        assigns = [nd for nd in cfg.nodes if nd.kind == 'stmt' and isinstance(nd.ast, ast.Assign) and norm(nd.ast.targets[0]) == var
-                   and setnode.id in cfg.reachable([nd], edge_ok=no_exc)]
-        fresh = [a for a in assigns if norm(a.ast.value) in ('PROCESS_STACK.get().copy()', 'list(PROCESS_STACK.get())', 'PROCESS_STACK.get()[:]')]
-        ops = [nd for nd in cfg.nodes if any(isinstance(c, ast.Call) and norm(c.func) == f'{var}.{op}' for c in (walk_shallow(nd.expr()) if nd.expr() is not None else []))
-               and setnode.id in cfg.reachable([nd], edge_ok=no_exc)]
-        if op == 'append':
-            ops = [o for o in ops if any(isinstance(c, ast.Call) and norm(c.func) == f'{var}.append' and [norm(a) for a in c.args] == ['self'] for c in walk_shallow(o.expr()))]
-        # nearest fresh copy precedes the op which precedes the set
-        return bool(fresh) and bool(ops) and any(o.id in cfg.reachable([a], edge_ok=no_exc) for a in fresh for o in ops)
-
-    if before:
-        chk.ob('PAIR-scope', ps, copy_based(before[0], 'append'), 'push: a copy of the current stack with this process appended is installed', kind='push-on-copy')
-    # pop in the finally of the try around the yield
-    tries = [t for t in ast.walk(ps.node) if isinstance(t, ast.Try) and t.finalbody and any(isinstance(x, ast.Yield) for s in t.body for x in ast.walk(s))]
-    ok = len(tries) == 1 and any(isinstance(c, ast.Call) and norm(c.func) == 'PROCESS_STACK.set' for s in tries[0].finalbody for c in ast.walk(s))
-    chk.ob('PAIR-scope', ps, ok, 'pop: the previous stack is restored in the finally of the try around the yield (also when the body raises)', kind='pop-in-finally')
-    if after:
-        chk.ob('PAIR-scope', ps, all(copy_based(a, 'pop') for a in after), 'pop: a copy of the current stack without its last element is installed', kind='pop-on-copy')
+            def edge_ok(a, b, label, cleanup=cleanup):
+                return not (label in ('exc', 'uncaught') and a.ast is not None and id(a.ast) in cleanup)
+            ok = all(cfg.must_pass(s0, [cfg.exit, cfg.raise_exit], lambda x: x in restores, edge_ok=edge_ok) for s0, l0 in p_.succ if l0 != 'exc')
+            chk.ob('PAIR-scope', f, ok, 'after the push every way out of the scope -- normal, or by an exception / cancellation raised inside it -- passes the restore '
+                   '(otherwise the process stays "current" for whatever runs next in that context)', node=p_.ast, kind='restore-on-every-exit')
+            call = [c for m, c in nodes if m is p_][0]
+            arg = call.args[0] if call.args else None
+            from ..rules import Resolver
+            src = Resolver(f).expand(arg) if arg is not None else None
+            fresh = False
+            if isinstance(arg, ast.Name):
+                # copy(), then append(self), then set
+                assigns = [m for m in cfg.nodes if m.kind == 'stmt' and isinstance(m.ast, ast.Assign) and norm(m.ast.targets[0]) == arg.id and p_.id in cfg.reachable([m], edge_ok=no_exc)]
+                fresh = any(norm(a.ast.value) in ('PROCESS_STACK.get().copy()', 'list(PROCESS_STACK.get())', 'PROCESS_STACK.get()[:]') for a in assigns) and any(
+                    isinstance(c2, ast.Call) and norm(c2.func) == f'{arg.id}.append' and [norm(a2) for a2 in c2.args] == ['self'] for m in cfg.nodes for c2 in (walk_shallow(m.expr()) if m.expr() is not None else []))
+            if isinstance(src, (ast.List,)) or (isinstance(src, ast.BinOp) and isinstance(src.op, ast.Add)):
+                txt = norm(src)
+                fresh = fresh or ('PROCESS_STACK.get()' in txt and 'self' in txt)
+            chk.ob('PAIR-scope', f, fresh, 'push: a NEW list (copy of the current stack plus this process) is installed', node=p_.ast, kind='push-on-copy')
+        for r_ in restores:
+            call = [c for m, c in nodes if m is r_][0]
+            okr = call.func.attr == 'reset'
+            if not okr and call.args and isinstance(call.args[0], ast.Name):
+                v = call.args[0].id
+                assigns = [m for m in cfg.nodes if m.kind == 'stmt' and isinstance(m.ast, ast.Assign) and norm(m.ast.targets[0]) == v and r_.id in cfg.reachable([m])]
+                okr = any(norm(a.ast.value) in ('PROCESS_STACK.get().copy()', 'list(PROCESS_STACK.get())', 'PROCESS_STACK.get()[:]') for a in assigns) and any(
+                    isinstance(c2, ast.Call) and norm(c2.func) == f'{v}.pop' for m in cfg.nodes for c2 in (walk_shallow(m.expr()) if m.expr() is not None else []))
+            chk.ob('PAIR-scope', f, okr, 'restore: the previous stack is re-installed (token reset, or a copy without its last element)', node=r_.ast, kind='pop-on-copy')
     cur = prog.func('processes.Process.current')
     rets = [r for r in ast.walk(cur.node) if isinstance(r, ast.Return) and r.value is not None and not (isinstance(r.value, ast.Constant) and r.value.value is None)]
     chk.ob('PAIR-scope', cur, len(rets) == 1 and norm(rets[0].value) == 'PROCESS_STACK.get()[-1]', 'current() is the top of the stack', kind='current-is-top')
@@ -102,6 +116,13 @@ def scope_reachability(chk: Check) -> None:
             return 'scoped (runs inside _run_task)'
         if esc.enclosing_with(f, node, SCOPE):
             return f'scoped in {f.short}'
+        # token form: the site is dominated by a stack push of the same function and a restore follows
+        cfgf = cfg_of(f)
+        writes = [m for m in cfgf.nodes if any(isinstance(c, ast.Call) and isinstance(c.func, ast.Attribute) and norm(c.func.value) == 'PROCESS_STACK' and c.func.attr == 'set'
+                                                 for c in (walk_shallow(m.expr()) if m.expr() is not None else []))]
+        here = cfgf.nodes_containing(node)
+        if writes and here and all(cfgf.must_pass(cfgf.entry, [h], lambda m: m in writes, edge_ok=no_exc) for h in here):
+            return f'scoped in {f.short} (push/restore)'
         return None
 
     n = 0
@@ -158,5 +179,5 @@ def scope_reachability(chk: Check) -> None:
     chk.ob('SCOPE-reachability', cs, first, 'the user callback is the first argument handed to _run_task', kind='callback-first-arg')
     rt = prog.func('processes.Process._run_task')
     sites = [c for c, t in chk.ctx.calls.func_calls(rt) if t.uncontrolled]
-    ok = bool(sites) and all(esc.enclosing_with(rt, c, SCOPE) for c in sites)
+    ok = bool(sites) and all(stop(rt, c, '') for c in sites)
     chk.ob('SCOPE-reachability', rt, ok, '_run_task awaits the function inside "with self._process_scope()"', kind='run-task-scoped')
